@@ -167,6 +167,11 @@ def check_concrete(d):
     x = M.build_tlv(d)
     pack_fresh(devs, "enc.pack", x.pack, want)
     eq(devs, "enc.packet_len", x.packet_len, len(want))
+    if kind in ("fault", "fsreq", "fsresp"):
+        xi = M.build_tlv(d, plain_ints=True)
+        eq(devs, "enc.plain_int_parameters.pack", bytes(xi.pack()), want)
+        eq(devs, "enc.plain_int_parameters.packet_len", xi.packet_len, len(want))
+        eq(devs, "enc.plain_int_parameters.obs", obs_concrete(xi, kind), wo)
     eq(devs, "enc.obs", obs_concrete(x, kind), wo)
     routes = [
         ("unpack", lambda: cls.unpack(want)),
